@@ -242,7 +242,34 @@ structure WSide where
   written : Bytes := []
   /-- successful `poll_flush` calls -/
   flushes : Nat := 0
+  /-- futures mpsc: the handle used by `send` is parked (its next `try_send` fails "full") -/
+  parked : Bool := false
+  /-- futures mpsc `parked_queue`: `true` = the handle, `false` = a dropped `with_remote_addr` clone -/
+  parkedQ : List Bool := []
+  /-- messages `send` refused because the queue was full -/
+  rejected : Nat := 0
   deriving Repr
+
+/-- `BufDnsStreamHandle::new`: `DEFAULT_STREAM_BUFFER_SIZE` -/
+def bufferSize : Nat := 32
+
+/-- `Receiver::next_message` → `unpark_one`: popping a message un-parks the longest-parked sender -/
+def WSide.unparkOne (w : WSide) : WSide :=
+  match w.parkedQ with
+  | [] => w
+  | true :: r => { w with parked := false, parkedQ := r }
+  | false :: r => { w with parkedQ := r }
+
+@[simp] theorem unparkOne_queue (w : WSide) : w.unparkOne.queue = w.queue := by
+  unfold WSide.unparkOne; split <;> rfl
+@[simp] theorem unparkOne_send (w : WSide) : w.unparkOne.send = w.send := by
+  unfold WSide.unparkOne; split <;> rfl
+@[simp] theorem unparkOne_ws (w : WSide) : w.unparkOne.ws = w.ws := by
+  unfold WSide.unparkOne; split <;> rfl
+@[simp] theorem unparkOne_written (w : WSide) : w.unparkOne.written = w.written := by
+  unfold WSide.unparkOne; split <;> rfl
+@[simp] theorem unparkOne_flushes (w : WSide) : w.unparkOne.flushes = w.flushes := by
+  unfold WSide.unparkOne; split <;> rfl
 
 inductive WOut where
   /-- nothing left to send: fall through to the receive loop -/
@@ -313,8 +340,9 @@ def writeLoop (vec : Bool) (w : WSide) : WSide × WOut :=
     match hq : w.queue with
     | [] => (w, .done)
     | (m, dstOk) :: q =>
-      if dstOk then writeLoop vec { w with queue := q, send := some (.lenBytes 0 (lenPrefix m.length) m) }
-      else ({ w with queue := q }, .err)   -- "mismatched peer", the message is dropped
+      if dstOk then
+        writeLoop vec { w.unparkOne with queue := q, send := some (.lenBytes 0 (lenPrefix m.length) m) }
+      else ({ w.unparkOne with queue := q }, .err)   -- "mismatched peer", the message is dropped
 termination_by w.measure
 decreasing_by
   · have := rank_afterLen (pos + bs.length) length bytes
@@ -328,7 +356,7 @@ decreasing_by
   · simp only [WSide.measure, hs, rank_flushing, rank_none]
     unfold sockFlush at hw
     split at hw <;> simp_all
-  · simp only [WSide.measure, hs, hq, rank_len, rank_none, List.length_cons]
+  · simp only [WSide.measure, hs, hq, rank_len, rank_none, List.length_cons, unparkOne_ws]
     omega
 
 /-! ## the connection and `poll_next` -/
@@ -374,9 +402,39 @@ def pollNext (c : Conn) : Conn × Item :=
     let r := readLoop c.rd c.rs
     ({ c with w := w', rd := r.1, rs := r.2.1 }, r.2.2.toItem)
 
-/-- `BufDnsStreamHandle::send` (queue capacity is not modelled) -/
+/-- `BufDnsStreamHandle::send` = futures mpsc `try_send` on a channel of `bufferSize`: refused
+("full") while the handle is parked; otherwise the message is queued and, if the queue now holds more
+than `bufferSize` messages, the handle parks itself.  `dstOk = false`: sent through a fresh
+`with_remote_addr(other)` clone, which is never parked beforehand and is dropped afterwards. -/
 def Conn.enqueue (c : Conn) (m : Bytes) (dstOk : Bool := true) : Conn :=
-  { c with w := { c.w with queue := c.w.queue ++ [(m, dstOk)] } }
+  if dstOk && c.w.parked then { c with w := { c.w with rejected := c.w.rejected + 1 } }
+  else if c.w.queue.length + 1 > bufferSize then
+    { c with w := { c.w with queue := c.w.queue ++ [(m, dstOk)], parked := c.w.parked || dstOk,
+                             parkedQ := c.w.parkedQ ++ [dstOk] } }
+  else { c with w := { c.w with queue := c.w.queue ++ [(m, dstOk)] } }
+
+/-- does `send` take the message? (`dstOk = false` uses a fresh clone, which is never parked) -/
+def Conn.accepts (c : Conn) (dstOk : Bool) : Bool := !(dstOk && c.w.parked)
+
+@[simp] theorem enqueue_rd (c : Conn) (m : Bytes) (ok : Bool) : (c.enqueue m ok).rd = c.rd := by
+  unfold Conn.enqueue; split <;> (try split) <;> rfl
+@[simp] theorem enqueue_rs (c : Conn) (m : Bytes) (ok : Bool) : (c.enqueue m ok).rs = c.rs := by
+  unfold Conn.enqueue; split <;> (try split) <;> rfl
+@[simp] theorem enqueue_vec (c : Conn) (m : Bytes) (ok : Bool) : (c.enqueue m ok).vec = c.vec := by
+  unfold Conn.enqueue; split <;> (try split) <;> rfl
+@[simp] theorem enqueue_send (c : Conn) (m : Bytes) (ok : Bool) : (c.enqueue m ok).w.send = c.w.send := by
+  unfold Conn.enqueue; split <;> (try split) <;> rfl
+@[simp] theorem enqueue_ws (c : Conn) (m : Bytes) (ok : Bool) : (c.enqueue m ok).w.ws = c.w.ws := by
+  unfold Conn.enqueue; split <;> (try split) <;> rfl
+@[simp] theorem enqueue_written (c : Conn) (m : Bytes) (ok : Bool) :
+    (c.enqueue m ok).w.written = c.w.written := by
+  unfold Conn.enqueue; split <;> (try split) <;> rfl
+theorem enqueue_queue (c : Conn) (m : Bytes) (ok : Bool) :
+    (c.enqueue m ok).w.queue = if c.accepts ok then c.w.queue ++ [(m, ok)] else c.w.queue := by
+  unfold Conn.enqueue Conn.accepts
+  split
+  · rename_i h; simp [h]
+  · rename_i h; simp only [h]; split <;> simp
 
 def Conn.measure (c : Conn) : Nat := c.w.measure + rsize c.rs
 
@@ -457,7 +515,8 @@ theorem writeLoop_le (vec : Bool) (w : WSide) : (writeLoop vec w).1.measure ≤ 
     obtain ⟨_, rfl⟩ := this
     simp_all [WSide.measure]; omega
   case case14 =>
-    simp_all [WSide.measure]; omega
+    simp_all [WSide.measure]
+    omega
   all_goals simp_all [WSide.measure]
   all_goals first
     | omega
@@ -484,8 +543,10 @@ theorem writeLoop_pending_lt (vec : Bool) (w : WSide) (h : (writeLoop vec w).2 =
     obtain ⟨_, rfl⟩ := this
     have := ih h
     simp_all [WSide.measure]; omega
-  case case14 =>
-    simp_all [WSide.measure]; omega
+  case case14 w hs m q hq ih =>
+    have := ih h
+    simp only [WSide.measure, unparkOne_ws, rank_len, hs, hq, rank_none, List.length_cons] at this ⊢
+    omega
   all_goals simp_all [WSide.measure]
   all_goals first
     | omega
